@@ -145,7 +145,7 @@ type RankSpec struct {
 // Scenario is one case. The list of scenarios is a pure function of the seed.
 type Scenario struct {
 	ID      int         `json:"id"`
-	Kind    string      `json:"kind"` // mixed | nopeer | stopmid | reconnect | rank | idlestall
+	Kind    string      `json:"kind"` // mixed | nopeer | stopmid | reconnect | rank | idlestall | quietreconn
 	Peers   []PeerSpec  `json:"peers"`
 	Batches []BatchSpec `json:"batches"`
 	// StopAt: Stop is called at this point with whatever is in flight (no
@@ -159,6 +159,12 @@ type Scenario struct {
 	// peer's Leave trigger closes OnDisconnect), "silent" (every peer stays
 	// connected and never answers again), "mixed" (some of each).
 	Stall string `json:"stall,omitempty"`
+	// Steps (kind quietreconn): the scenario is this list of steps, taken one
+	// after the other at quiescent points; Others says what the peers other
+	// than the re-connecting one do ("none", "gone", "silent",
+	// "stay-then-gone").
+	Steps  []QStep `json:"steps,omitempty"`
+	Others string  `json:"others,omitempty"`
 }
 
 // Generate returns n scenarios; scenario i depends only on (seed, i).
